@@ -319,7 +319,47 @@ def nonempty_facts(f, node):
       same = all(rd.defs_at(t, nm) == rd.defs_at(node, nm) for nm in dataflow.names_loaded(cand))
       if same:
         out.add(norm(cand))
+      # monotone flag: `ok = bool(A) and bool(B)` once, every later `ok = ...` only under `if ok and ...`: ok true here
+      # implies it was true at its first definition, hence A and B non-empty
+      if tr and isinstance(e, ast.Name):
+        out |= _monotone_flag_facts(f, g, rd, doms, e.id, t)
   cache[key] = out
+  return out
+
+
+def _monotone_flag_facts(f, g, rd, doms, flag, at):
+  defs = [n for n in g.nodes if n.kind == 'stmt' and isinstance(n.ast, ast.Assign) and len(n.ast.targets) == 1
+          and isinstance(n.ast.targets[0], ast.Name) and n.ast.targets[0].id == flag]
+  other_defs = [n for n in g.nodes if any(d.name == flag for d in rd.gen.get(n, ())) and n not in defs]
+  if not defs or other_defs:
+    return set()
+  first = [n for n in defs if not any(m is not n and m in doms.get(n, ()) for m in defs)]
+  if len(first) != 1 or first[0] not in doms.get(at, ()):
+    return set()
+  init = first[0]
+  for n in defs:
+    if n is init:
+      continue
+    guarded = False
+    for ex, taken, tn in cfgmod.dominating_conditions(g, n, doms):
+      dnf = pathcond.literals(ex, taken)
+      if len(dnf) == 1 and any(tv and isinstance(a, ast.Name) and a.id == flag for a, tv in dnf[0]):
+        guarded = True
+    if not guarded:
+      return set()
+  out = set()
+  dnf = pathcond.literals(init.ast.value, True)
+  if len(dnf) != 1:
+    return set()
+  for a, tv in dnf[0]:
+    if not tv:
+      continue
+    if isinstance(a, ast.Call) and isinstance(a.func, ast.Name) and a.func.id == 'bool' and len(a.args) == 1:
+      a = a.args[0]
+    if isinstance(a, (ast.Name, ast.Attribute)):
+      # the operands must not be rebound between the flag's definition and the use
+      if all(rd.defs_at(init, nm) == rd.defs_at(at, nm) for nm in dataflow.names_loaded(a)):
+        out.add(norm(a))
   return out
 
 
@@ -595,7 +635,7 @@ def r2_termination(repo, rep, closure):
         continue
       n_paths += 1
       rep.analysed['paths'] += 1
-      dnf = pathcond.literals(tnode.expr, lab == 'true')
+      dnf = pathcond.literals(ctx.rd.expand(tnode, tnode.expr)[0], lab == 'true')      # a named comparison is looked through
       strict = len(dnf) == 1 and len(dnf[0]) == 1
       if strict:
         e, tr = dnf[0][0]
